@@ -228,6 +228,10 @@ func (t *Tokenizer) tokenizeBuffer(buf []byte, last bool) {
 					t.handleNum(off)
 				case 't':
 					t.addToken(string(t.tmp))
+					if t.mode == colonMap {
+						// The token is a key with no value.
+						t.byteError(off, t.mode, b)
+					}
 				}
 			}
 			t.starts = t.starts[0:depth]
@@ -381,20 +385,11 @@ func (t *Tokenizer) tokenizeBuffer(buf []byte, last bool) {
 		case tokenOk:
 			t.tmp = append(t.tmp, b)
 		case tokenSpc:
+			// Any byte that is not part of a token ends the token. The
+			// byte is then looked at again in the mode the token left
+			// just as it is on the fast path of tokenStart.
 			t.addToken(string(t.tmp))
-		case tokenColon:
-			t.addToken(string(t.tmp))
-			t.mode = valueMap
-		case tokenNlColon:
-			t.addToken(string(t.tmp))
-			t.line++
-			t.noff = off
-			for i, b = range buf[off+1:] {
-				if spaceMap[b] != skipChar {
-					break
-				}
-			}
-			off += i
+			off--
 		case strQuote:
 			if b == t.quoteDelim {
 				t.addString(string(t.tmp))
